@@ -348,7 +348,7 @@ def conclude(pid, tier, seed, b, names, res, t0, cfg):
                  'panic': v.get('panic'), 'paths_with_this_failure': len(vs),
                  'replay_cmd': './check %s --replay <this file>' % pid}
         if kind == 'known':
-            kfe = [k for k in known if k.get('id') == kf and k.get('check') == cid]
+            kfe = [k for k in known if k.get('id') == kf and cid in [x.strip() for x in str(k.get('check', '')).split(' / ')]]
             if kfe:
                 known_hit.append((kfe[0], entry))
                 continue
